@@ -440,9 +440,45 @@ fn run_api_xnlri(l: &[Val]) -> Val {
     }
 }
 
+// kind 9: [9, 0, PrefixSid message] / [9, 1, TunnelEncap message]: a typed message of an attribute whose value is a TLV tree.
+// observation: [0] refused | [1, value bytes, the packet decoder reads the value, listed and added again: 0 same / 1 changed / 2 refused,
+//               the listing: the typed message, or [99] for the raw form]
+fn run_api_typed(l: &[Val]) -> Val {
+    let which = l[1].int();
+    let msg = if which == 0 {
+        api::attribute::Attr::PrefixSid(prefix_sid_api_of(&l[2]))
+    } else {
+        api::attribute::Attr::TunnelEncap(tunnel_encap_api_of(&l[2]))
+    };
+    match attr_from_api(api::Attribute { attr: Some(msg) }) {
+        Err(_) => Val::L(vec![i(0)]),
+        Ok(a) => {
+            let bytes = a.binary().unwrap().clone();
+            let dec = caught(|| {
+                if which == 0 {
+                    Val::b(prefix_sid::PrefixSid::decode(&bytes).is_ok())
+                } else {
+                    Val::b(packet::tunnel_encap::encode(&packet::tunnel_encap::decode(&bytes)) == bytes)
+                }
+            });
+            let relist = caught(|| match attr_from_api(attr_to_api(&a)) {
+                Ok(b) => i(if b == a { 0 } else { 1 }),
+                Err(_) => i(2),
+            });
+            let listed = caught(|| match attr_to_api(&a).attr {
+                Some(api::attribute::Attr::PrefixSid(p)) => prefix_sid_api_val(&p),
+                Some(api::attribute::Attr::TunnelEncap(t)) => tunnel_encap_api_val(&t),
+                _ => Val::L(vec![i(99)]),
+            });
+            Val::L(vec![i(1), bytes_digest_val(&bytes), dec, relist, listed, Val::n(a.code()), Val::n(a.flags())])
+        }
+    }
+}
+
 fn run_case(case: &Val) -> Val {
     let l = case.list();
     match l[0].int() {
+        9 => run_api_typed(l),
         8 => run_api_xnlri(l),
         6 => run_api_evpn(l),
         7 => run_evpn(l),
